@@ -164,25 +164,39 @@ Theorem C14_fixed_end_to_end : forall (F : Type) (rI : F) (rmul : F -> F -> F) (
 Proof. exact @fixed_end_to_end. Qed.
 Print Assumptions C14_fixed_end_to_end.
 
-(* the last mode, which only non_negative_parafac_hals lets the caller fix, comes back with the weights absorbed:
-   the supplied array for unit weights, supplied * diag(w) otherwise ... *)
-Theorem C14_hals_fixed_last_mode : forall (F : Type) (rI : F) (rmul : F -> F -> F) (eqb : F -> F -> bool) (X : Type)
-  upd stop normf pre pre_on post ls_on ls_accept lsf lsw lsx n fixed budget tol R (w : list F) (fs : list (matrix (F := F))) (x : X) s',
-  run upd stop normf false pre pre_on post ls_on ls_accept lsf lsw lsx NNHals n fixed budget tol (start x (init_cp rI rmul eqb R (Some w) fs)) = Ok s' ->
-  In (length fs - 1) fixed -> fs <> [] ->
-  nth (length fs - 1) (facs s') [] =
-  if all_ones rI eqb w then nth (length fs - 1) fs [] else scale_cols rmul (nth (length fs - 1) fs []) w.
-Proof. exact @fixed_last_mode_hals. Qed.
-Print Assumptions C14_hals_fixed_last_mode.
+(* non_negative_parafac_hals is the one driver that lets the caller fix the LAST mode; since commit 3d55b5c it pulls the
+   weights of the initialisation into the last UPDATED mode (init_hals), which still represents the supplied tensor ... *)
+Theorem C14_hals_init_represents : forall (F : Type) (rO rI : F) (radd rmul rsub : F -> F -> F) (ropp : F -> F),
+  ring_theory rO rI radd rmul rsub ropp (@eq F) ->
+  forall (eqb : F -> F -> bool), (forall x y, eqb x y = true <-> x = y) ->
+  forall R n fixed (w : list F) (fs : list (matrix (F := F))) idx, fs <> [] -> length w = R -> n = length fs ->
+  cp_entry rO rI radd rmul R (fst (init_hals rI rmul eqb R n fixed (Some w) fs)) (snd (init_hals rI rmul eqb R n fixed (Some w) fs)) idx
+  = cp_entry rO rI radd rmul R w fs idx.
+Proof. exact init_hals_represents. Qed.
+Print Assumptions C14_hals_init_represents.
 
-(* ... so with non-unit weights it is NOT the supplied array (known finding; same tensor) *)
-Theorem C14_hals_fixed_last_refuted : exists (w : list Z) (fs : list (list (list Z))) s',
+(* ... and EVERY fixed mode, the last one included, comes back as the supplied array after any number of sweeps, as soon
+   as one mode is left to update or the weights are unit / absent *)
+Theorem C14_hals_fixed_end_to_end : forall (F : Type) (rI : F) (rmul : F -> F -> F) (eqb : F -> F -> bool) (X : Type)
+  upd stop normf pre pre_on post ls_on ls_accept lsf lsw lsx n fixed budget tol R (w : option (list F))
+  (fs : list (matrix (F := F))) (x : X) s' m d,
+  (forall x y, eqb x y = true <-> x = y) ->
+  run upd stop normf false pre pre_on post ls_on ls_accept lsf lsw lsx NNHals n fixed budget tol (start x (init_hals rI rmul eqb R n fixed w fs)) = Ok s' ->
+  n = length fs -> In m fixed -> m < n ->
+  (modes_list NNHals n fixed <> [] \/ all_ones rI eqb (match w with None => ones rI R | Some v => v end) = true) ->
+  nth m (facs s') d = nth m fs d.
+Proof. exact @hals_fixed_end_to_end. Qed.
+Print Assumptions C14_hals_fixed_end_to_end.
+
+(* what is left (known finding, same tensor): EVERY mode fixed and non-unit weights -- no updated mode can take the weights
+   and the all-fixed return carries them in the last factor *)
+Theorem C14_hals_all_fixed_weights_refuted : exists (w : list Z) (fs : list (list (list Z))) s',
   run (fun _ m s => (nth m (facs s) [], tt)) (fun _ _ => false) (fun s => s) false (fun _ m s => nth m (facs s) []) (fun _ => false) (fun _ _ => tt)
-      (fun _ => false) (fun _ _ _ => false) (fun _ _ l c => c) (fun _ _ l c => c) (fun _ _ _ => tt) NNHals 2 [1] 1 true
-      (start tt (init_cp 1%Z Z.mul Z.eqb 1 (Some w) fs)) = Ok s' /\ In 1 [1] /\
+      (fun _ => false) (fun _ _ _ => false) (fun _ _ l c => c) (fun _ _ l c => c) (fun _ _ _ => tt) NNHals 2 [0; 1] 1 true
+      (start tt (init_hals 1%Z Z.mul Z.eqb 1 2 [0; 1] (Some w) fs)) = Ok s' /\ (forall m, m < 2 -> In m [0; 1]) /\
   nth 1 (facs s') [] <> nth 1 fs [].
-Proof. exact hals_fixed_last_counterexample. Qed.
-Print Assumptions C14_hals_fixed_last_refuted.
+Proof. exact hals_all_fixed_weights_counterexample. Qed.
+Print Assumptions C14_hals_all_fixed_weights_refuted.
 
 (* end to end, zero budget: every algorithm, option and fixed list returns a CP tensor representing the supplied one *)
 Theorem C14_zero_budget_end_to_end : forall (F : Type) (rO rI : F) (radd rmul rsub : F -> F -> F) (ropp : F -> F),
@@ -433,7 +447,11 @@ Example C14_nonvacuous_skeleton :
   ex_run (fun _ => false) (fun _ => false) Constrained 2 [0;1;1] 1 true = Err /\
   tucker_fixed_lists [1;0] [10;11] (fun _ free => map (fun x => x + 100) free) = Ok [10;11] /\
   tucker_fixed_lists [2;0] [10;11;12;13] (fun _ free => map (fun x => x + 100) free) = Ok [10;111;12;113] /\
-  ls_mat Z.add Z.sub Z.mul 3%Z [[1; 2]; [3; 4]]%Z [[2; 2]; [1; 8]]%Z = [[4; 2]; [-3; 16]]%Z.
+  ls_mat Z.add Z.sub Z.mul 3%Z [[1; 2]; [3; 4]]%Z [[2; 2]; [1; 8]]%Z = [[4; 2]; [-3; 16]]%Z /\
+  (* HALS-CP start: last mode fixed => the weights go into the last free mode (1); otherwise into the last mode *)
+  init_hals 1%Z Z.mul Z.eqb 1 3 [2; 0] (Some [2]%Z) [[[1]]; [[3]]; [[5]]]%Z = ([1]%Z, [[[1]]; [[6]]; [[5]]]%Z) /\
+  init_hals 1%Z Z.mul Z.eqb 1 3 [0] (Some [2]%Z) [[[1]]; [[3]]; [[5]]]%Z = ([1]%Z, [[[1]]; [[3]]; [[10]]]%Z) /\
+  init_hals 1%Z Z.mul Z.eqb 1 3 [0; 1; 2] (Some [2]%Z) [[[1]]; [[3]]; [[5]]]%Z = ([1]%Z, [[[1]]; [[3]]; [[10]]]%Z).
 Proof. vm_compute. repeat split. Qed.
 
 Example C14_nonvacuous_tucker :
